@@ -222,6 +222,13 @@ func (w *vhWorldBGP) listen() int {
 			}
 			w.mu.Lock()
 			w.dials++
+			if w.dialFails > 0 {
+				// the peer refuses this attempt
+				w.dialFails--
+				w.mu.Unlock()
+				tc.Close()
+				continue
+			}
 			c := &vhPeerConn{closedCh: make(chan struct{}), table: map[string]vhRoute{}, tcp: tc}
 			hello := w.openFor(c)
 			w.conns = append(w.conns, c)
@@ -346,6 +353,7 @@ func VerifSession(steps, mode, fault int) {
 		RouterID: net.IP{10, 0, 0, 9}, HoldTime: &ht, CurrentNode: "node-me"})
 	vr.Assert(err == nil, "NewSession failed")
 	var last []*bgp.Advertisement
+	refused := false
 	settle := func() {
 		if !vr.Symbolic() {
 			time.Sleep(120 * time.Millisecond)
@@ -370,15 +378,30 @@ func VerifSession(steps, mode, fault int) {
 	for i := 0; i < steps; i++ {
 		switch vr.Choose(3) {
 		case 0: // a new route set is requested (possibly empty, possibly only attributes change)
-			k := vr.Choose(4)
-			last = vhSet([]int{0, 1, 3, 6}[k], k&1)
+			// menu: {}, {p0,p1} plain, {p0,p1} with other attributes (attribute-only change),
+			// {p1,p2} with those attributes (p1 unchanged, p0 withdrawn, p2 new), {p0} plain
+			k := vr.Choose(5)
+			last = vhSet([]int{0, 3, 3, 6, 1}[k], []int{0, 0, 1, 1, 0}[k])
 			vr.Assert(sess.Set(last...) == nil, "Set failed")
 		case 1: // the peer drops the current connection
 			lock()
 			if n := len(w.conns); n > 0 {
 				w.conns[n-1].drop()
 			}
-			unlock()
+			if vr.Bool() {
+				// ... and refuses the next two connection attempts: the session notices the loss and
+				// waits in its back-off; what the environment does next happens while the session is down
+				w.dialFails = 2
+				refused = true
+				unlock()
+				if vr.Symbolic() {
+					vr.Yield()
+				} else {
+					time.Sleep(60 * time.Millisecond)
+				}
+			} else {
+				unlock()
+			}
 		case 2: // time passes (back-off sleeps end), everybody runs until blocked
 			settle()
 		}
@@ -408,7 +431,12 @@ func VerifSession(steps, mode, fault int) {
 	}
 	// from now on the connection stays up
 	w.failPlan = nil
+	lock()
 	w.dialFails = 0
+	unlock()
+	if refused && !vr.Symbolic() {
+		time.Sleep(2500 * time.Millisecond) // native back-off after refused connection attempts (0 s, 1 s)
+	}
 	settle()
 	settle()
 	lock()
